@@ -26,6 +26,20 @@ def check_first_def(ctx: Ctx, rule: str, m: S.SchemeModel):
         )
 
 
+def check_single_exit(ctx: Ctx, rule: str, m: S.SchemeModel):
+    """The builder has one exit (the list of equations after the loop) and does not modify what it was given."""
+    from .common import param_mutations
+
+    f = m.func
+    rets = [n for n in ast.walk(f.node) if isinstance(n, ast.Return)]
+    last = f.node.body[-1]
+    ok = len(rets) == 1 and rets[0] is last and isinstance(rets[0].value, ast.Name) and rets[0].value.id == m.result_list
+    extra = [r for r in rets if r is not last]
+    ctx.check(ok, rule, f.key("single-exit"), "the only exit returns the equations built by the loop", f"{f.name} has {len(rets)} return statement(s); " + (f"an early exit `{norm(extra[0])[:80]}` bypasses the per-state construction for some inputs" if extra else "the final statement is not `return <equations>`"), f.where(extra[0]) if extra else f.where())
+    muts = param_mutations(f)
+    ctx.check(not muts, rule, f.key("arguments-untouched"), "the builder does not modify its arguments", f"{f.name}: " + "; ".join(w for _, w in muts[:3]) + " - a second generation with the same argument object gives another result", f.where(muts[0][0]) if muts else f.where())
+
+
 def check_counter(ctx: Ctx, rule: str, m: S.SchemeModel):
     """Slot discipline: one store per derivative path at the counter, counter advanced once, after the store."""
     f = m.func
@@ -88,6 +102,7 @@ def run(ctx: Ctx):
         f = m.func
         check_first_def(ctx, "R05.a", m)
         check_counter(ctx, "R05.a", m)
+        check_single_exit(ctx, "R05.a", m)
         for r in m.rows:
             lits = dict(S.normalise_lits(r.lits))
             if lits.get("ISDERIV") and r.store is not None:
